@@ -1116,7 +1116,7 @@ static CaseSpec encodeArg(int k)
         case 0x30: c.mn = 0; c.mx = 100; c.b = {}; break;   // the empty batch (returns no frames; not in the tree alphabet: dedicated histories of C10)
         case 0x31: c.mn = 64; c.mx = 64; c.b = {}; break;  // the empty batch with a minimum size
         case 13: c.mn = 0; c.mx = 100; c.b = {gen(0, 5, 0), gen(0, 6, 1)}; break;   // message type 0 ("undefined"): no type change opens the first frame
-        case 12: c.mn = 0; c.mx = 1500; c.b = {gen(1, 16, 0), gen(3, 0, 1), gen(1, 16, 2)}; c.b[2].flags = 0x08; break;   // a zero-length payload between two type changes (emits no message)
+        case 12: c.mn = 0; c.mx = 1500; c.b = {gen(1, 16, 0), gen(3, 0, 1), gen(1, 3000, 2)}; c.b[2].flags = 0x08; break;   // ... the packet behind it needs three frames   // a zero-length payload between two type changes (emits no message)
         case 10: c.mn = 0; c.mx = 1500; c.ver = 2; c.b = {gen(1, 6, 0)}; break;       // E0 with another version
         case 11: c.mn = 0; c.mx = 64; c.ver = 1; c.b = {gen(3, 11, 0)}; c.api = 1; break;   // E4 with another version, through the single-packet overload
         default: c.mn = 30; c.mx = 48; c.b = {gen(0xFF, 25, 0), gen(1, 24, 1), gen(1, 2, 2)}; c.b[0].pt = 0; break;   // segmented vendor packet of raw type 0xFF00 first
